@@ -53,7 +53,7 @@ TReset ==
   /\ tver' = [n \in Names |-> <<>>]
   /\ ever' = <<>> /\ wl' = <<>> /\ delp' = 0 /\ dedup' = <<>>
   /\ use' = [hf |-> Ev.cfg.hf, df |-> Ev.cfg.df]
-  /\ base' = 0 /\ ckroot' = NoVer /\ pend' = 0
+  /\ base' = 0 /\ ckroot' = NoVer /\ pend' = 0 /\ crashed' = FALSE
   /\ rcache' = [n \in Names |-> NoVer]
   /\ w' = Closed
 
